@@ -234,7 +234,30 @@ func runDriver(e *Env, bin, root, check string, timeout time.Duration, extraEnv 
 }
 
 // compiledMain is the common pipeline of a compiled check.
+// knownSpecs loads the saved regression specs of known findings for a check.
+func knownSpecs(check string) []PkgSpec {
+	var out []PkgSpec
+	files, _ := filepath.Glob(filepath.Join(verifDir, "findings", "specs", check, "*.json"))
+	for i, f := range files {
+		if strings.HasSuffix(f, ".cfg.json") {
+			continue
+		}
+		raw, err := os.ReadFile(f)
+		if err != nil {
+			continue
+		}
+		name := strings.TrimSuffix(filepath.Base(f), ".json")
+		ps := PkgSpec{Name: fmt.Sprintf("kf%s%03d", strings.ToLower(check), i), Raw: raw, Cfg: inproc.Config{DoNotEdit: true}, Meta: map[string]any{"known_spec": name}}
+		if cb, err := os.ReadFile(strings.TrimSuffix(f, ".json") + ".cfg.json"); err == nil {
+			json.Unmarshal(cb, &ps.Cfg)
+		}
+		out = append(out, ps)
+	}
+	return out
+}
+
 func compiledMain(e *Env, check string, specs []PkgSpec, race bool, timeout time.Duration, extraEnv ...string) (*res.Result, error) {
+	specs = append(specs, knownSpecs(check)...)
 	bin, root, kept, st, err := buildDriver(e, specs, race)
 	if err != nil {
 		r := res.New()
